@@ -226,7 +226,11 @@ func (e *Engine) SolveUnit(unitName string, uses []string) []*OblResult {
 					j.res = SolveResult{Status: "unsat", Solver: "skipped"}
 					continue
 				}
-				j.res = solveQuery(j.query, quickTimeout)
+				jt := quickTimeout
+				if j.obl.Kind == "reach" {
+					jt = fastTimeout
+				}
+				j.res = solveQuery(j.query, jt)
 				if j.obl.Expect != "sat" && j.res.Status != "unsat" && j.res.Status != "sat" {
 					// undecided as a whole: conjuncts of the goal one by one, then with single quantified
 					// hypotheses left out (splitgoal.go); both only ever weaken what is assumed
@@ -266,12 +270,21 @@ func (e *Engine) SolveUnit(unitName string, uses []string) []*OblResult {
 				}
 				r.query = j.query
 			}
+			// branch-edge probes are diagnostics: they get the short time limit and a bounded number of paths, so
+			// that an edge no path of the model takes costs seconds, not (paths x solvers x the long limit)
+			tmo, maxTry := quickTimeout, len(o.Paths)
+			if o.Kind == "reach" {
+				tmo = fastTimeout
+				if maxTry > 12 {
+					maxTry = 12
+				}
+			}
 			if r.Status == "cover-unknown" {
 				// satisfiability with quantified path facts is often undecided: retry the same paths without the
 				// quantified conjuncts (a weaker guard against contradictory assumptions, but still a guard against
 				// contradictory ground preconditions and dead code)
-				for i := range o.Paths {
-					res := solveQuery(stripQuantified(e.buildQuery(o.Paths[i], false, uses)), quickTimeout)
+				for i := 0; i < maxTry; i++ {
+					res := solveQuery(stripQuantified(e.buildQuery(o.Paths[i], false, uses)), tmo)
 					r.Time += res.Time
 					if res.Status == "sat" {
 						r.Status = "cover-ok"
@@ -281,8 +294,8 @@ func (e *Engine) SolveUnit(unitName string, uses []string) []*OblResult {
 				}
 			}
 			if r.Status != "cover-ok" {
-				for i := 1; i < len(o.Paths); i++ {
-					res := solveQuery(e.buildQuery(o.Paths[i], false, uses), quickTimeout)
+				for i := 1; i < maxTry; i++ {
+					res := solveQuery(e.buildQuery(o.Paths[i], false, uses), tmo)
 					r.Time += res.Time
 					if res.Status == "sat" {
 						r.Status = "cover-ok"
